@@ -230,6 +230,11 @@ func evRegisterNode(g h.GroupSpec) h.Event {
 	}}
 }
 
+// evRejectNode: the API rejects every call on this node during the coming scan.
+func evRejectNode(node string) h.Event {
+	return h.Event{Label: "api-rejects(" + node + ")", Apply: func(hh *h.Hist) { hh.SlotFlags["reject:"+node] = true }}
+}
+
 func evRestart() h.Event {
 	return h.Event{Label: "restart", Apply: func(hh *h.Hist) { hh.Restart = true }}
 }
